@@ -38,52 +38,157 @@ class ParseError(Exception):
         self.msg = msg
 
 
-def full_parse(pkg, text, blackboxes=(), warnings=False, error_on_warning=False):
-    """Reference driver for the full parser: grammar as data + callbacks from source.
+REL_PARSER = "parsing/verilog.py"
+CLS_TRANSFORMER = "_VerilogCircuitGraphTransformer"
 
-    Returns a RefCircuit; raises ParseError(kind, msg) for a rejected netlist."""
-    from lark import Token, Tree
+
+def drive_transformer(pkg, inst, text):
+    """What `Lark(grammar, parser="lalr", transformer=inst).parse(text)` does: build the parse tree the grammar defines and
+    call the transformer's method named after each rule, children first."""
+    from lark import Tree
     from lark.exceptions import LarkError
 
     lark = load_lark(pkg.repo.grammar_text)
     try:
         tree = lark.parse(text)
     except LarkError as e:
-        raise ParseError("SyntaxError", f"{type(e).__name__}: {str(e)[:160]}")
-    rel = "parsing/verilog.py"
-    from .pkgenv import RepoInstance
-
-    cls = "_VerilogCircuitGraphTransformer"
-    if (rel, cls) not in pkg.repo.classes:
-        raise AnalysisError(f"anchor vanished: class {cls}", rel)
-    env = pkg.env(rel)
-    env.setdefault("super", lambda *a: None)
-    env.setdefault("type", type)
-    inst = RepoInstance(pkg, rel, cls)
+        raise ModelRaise("SyntaxError", f"{type(e).__name__}: {str(e)[:160]}")
+    d = object.__getattribute__(inst, "__dict__")
+    rel, cls = d["_ri_rel"], d["_ri_cls"]
 
     def has(name):
         return (rel, f"{cls}.{name}") in pkg.repo.funcs
 
-    try:
-        inst.__getattr__("__init__")(text, list(blackboxes), warnings, error_on_warning)
+    def walk(node):
+        if isinstance(node, Tree):
+            kids = [walk(ch) for ch in node.children]
+            name = str(node.data)
+            if has(name):
+                return getattr(inst, name)(kids)
+            return Tree(node.data, kids)
+        return node
 
-        def walk(node):
-            if isinstance(node, Tree):
-                kids = [walk(ch) for ch in node.children]
-                name = str(node.data)
-                if has(name):
-                    return getattr(inst, name)(kids)
-                return Tree(node.data, kids)
-            return node
-
-        res = walk(tree)
-    except ModelRaise as e:
-        raise ParseError(e.kind, e.what)
+    res = walk(tree)
     if isinstance(res, Tree):
         res = res.children
-    if not isinstance(res, list) or len(res) != 1 or not isinstance(res[0], RefCircuit):
-        raise ParseError("BadResult", f"start did not yield exactly one circuit: {str(res)[:80]}")
-    return res[0]
+    return res
+
+
+class MLark(Model):
+    """lark.Lark as the package uses it: constructed from the grammar file with a transformer, then `.parse(text)`."""
+
+    _pkg = None
+
+    def __init__(self, grammar=None, parser="lalr", transformer=None, **kw):
+        if transformer is None:
+            raise Unsupported("Lark() without a transformer")
+        if hasattr(grammar, "read"):
+            grammar.read()
+        self._transformer = transformer
+        self.options = kw
+
+    def parse(self, text, *a, **k):
+        return drive_transformer(type(self)._pkg, self._transformer, text)
+
+
+class _GrammarFile(Model):
+    def __init__(self, text):
+        self._text = text
+
+    def read(self):
+        return self._text
+
+    def __enter__(self):
+        return self
+
+    def __exit__(self, *a):
+        return False
+
+
+class _PPath(Model):
+    """Just enough of pathlib.Path for `Path(__file__).parent.absolute() / "verilog.lark"`."""
+
+    def __init__(self, p="."):
+        self._p = str(p)
+
+    @property
+    def parent(self):
+        return _PPath(self._p.rsplit("/", 1)[0] if "/" in self._p else ".")
+
+    def absolute(self):
+        return self
+
+    resolve = absolute
+
+    def __truediv__(self, o):
+        return _PPath(self._p + "/" + str(o))
+
+    def __str__(self):
+        return self._p
+
+    def __fspath__(self):
+        return self._p
+
+    def open(self, *a, **k):
+        return _open_grammar(self)
+
+    def read_text(self, *a, **k):
+        return _open_grammar(self).read()
+
+
+_GRAMMAR_OF = {}
+
+
+def _open_grammar(path, *a, **k):
+    ps = str(path)
+    if not ps.endswith(".lark"):
+        raise ModelRaise("FileNotFoundError", ps)
+    return _GrammarFile(_GRAMMAR_OF.get("text", ""))
+
+
+def prepare_parser_env(pkg):
+    """Bind, in the module environment of parsing/verilog.py, what `parse_verilog_netlist` itself needs: the transformer class
+    (the repository's own, evaluated from source), `Lark`, and the grammar file behind `open(Path(__file__)... / "verilog.lark")`."""
+    from .pkgenv import repo_class
+
+    env = pkg.env(REL_PARSER)
+    if env.get("__parser_env_ready__"):
+        return env
+    if (REL_PARSER, CLS_TRANSFORMER) not in pkg.repo.classes:
+        raise AnalysisError(f"anchor vanished: class {CLS_TRANSFORMER}", REL_PARSER)
+    env.setdefault("super", lambda *a: None)
+    env.setdefault("type", type)
+    env[CLS_TRANSFORMER] = repo_class(pkg, REL_PARSER, CLS_TRANSFORMER)
+    lark_cls = type("MLarkBound", (MLark,), {"_pkg": pkg})
+    env["Lark"] = lark_cls
+    env["Path"] = _PPath
+    env["__file__"] = "/site-packages/circuitgraph/parsing/verilog.py"
+    env["open"] = _open_grammar
+    _GRAMMAR_OF["text"] = pkg.repo.grammar_text
+    # module-level constants that needed Path / __file__ (a hoisted grammar path ...) can be bound now
+    from .pkgenv import bind_module_constants
+
+    bind_module_constants(pkg.repo.tree[REL_PARSER], env)
+    env["__parser_env_ready__"] = True
+    return env
+
+
+def full_parse(pkg, text, blackboxes=(), warnings=False, error_on_warning=False):
+    """The full parser: `parse_verilog_netlist` itself evaluated from source (so whatever it does around the grammar - caches,
+    pre-processing, result unpacking - is part of what is decided), with `Lark` standing for "build the tree the grammar
+    defines and run the transformer callbacks bottom-up".
+
+    Returns a RefCircuit / repository Circuit; raises ParseError(kind, msg) for a rejected netlist."""
+    prepare_parser_env(pkg)
+    if (REL_PARSER, "parse_verilog_netlist") not in pkg.repo.funcs:
+        raise AnalysisError("anchor vanished: parse_verilog_netlist", REL_PARSER)
+    r = pkg.call(REL_PARSER, "parse_verilog_netlist", text, list(blackboxes), warnings, error_on_warning)
+    if r[0] == "raise":
+        raise ParseError(r[1], r[2] if len(r) > 2 else "")
+    res = r[1]
+    if not isinstance(res, RefCircuit) and not (isinstance(res, Model) and hasattr(res, "graph")):
+        raise ParseError("BadResult", f"parse_verilog_netlist did not return a circuit: {str(res)[:80]}")
+    return res
 
 
 # ---------------------------------------------------------------------------
